@@ -130,7 +130,7 @@ class Fields:
             self.href_text = rng.choice(pool + [None]) if self.href else None
 
 
-def make_exc(name, idx, fields=None, status=None):
+def make_exc(name, idx, fields=None, status=None, own_vary=None):
     """An instance of class `name` whose title/text/header carry `idx`, so that the response shows
     which instance was rendered."""
     import falcon
@@ -138,6 +138,9 @@ def make_exc(name, idx, fields=None, status=None):
     f = fields or Fields()
     c = cl[name]
     own = own_headers(name, idx)
+    if own_vary:
+        own = dict(own)
+        own['Vary'] = own_vary
     if issubclass(c, falcon.HTTPError):
         kw = dict(title='E%d|%s' % (idx, f.title_tail), description=f.description, headers=own,
                   href=f.href, href_text=f.href_text, code=f.code)
@@ -149,12 +152,21 @@ def make_exc(name, idx, fields=None, status=None):
     return c('boom %d' % idx)
 
 
+VARY_PREFIX = ('Accept-Encoding-', 'Accept-Language-', 'X-Accept-', 'V')
+
+
+def vary_token(kind, idx):
+    """Text of the Vary token call idx appends ('m') or the exception raised by call idx carries ('e').  Most
+    contain "accept" without being Accept."""
+    return '%s%s%d' % (VARY_PREFIX[idx % 4], kind, idx)
+
+
 def own_headers(name, idx):
     """Headers an HTTP error / status instance raised by call idx carries: a marker, a list-valued one, and
     (classes in OWN_VARY) a Vary header of its own.  Alternately a dict or a list of pairs."""
     h = {'x-e%d' % idx: 'v%d' % idx, 'x-l%d' % idx: 'a%d, b%d' % (idx, idx)}
     if name in OWN_VARY:
-        h['Vary'] = 'e%d' % idx
+        h['Vary'] = vary_token('e', idx)
     return h if idx % 2 else list(h.items())
 
 
@@ -213,7 +225,7 @@ class Recorder:
     def mark(self, resp, idx):
         """Put the marker of call `idx` on the response through one of text / data / media."""
         attr = 2 if self.render_cls else (idx + self.attr_seed) % 3
-        resp.append_header('Vary', 'm%d' % idx)
+        resp.append_header('Vary', vary_token('m', idx))
         if attr == 0:
             resp.text = 'm%d' % idx
         elif attr == 1:
@@ -301,10 +313,24 @@ def _component(rec, idx, shape, asgi, twin):
     return type('Comp%d' % idx, (), d)()
 
 
-def _resource(rec, nb, na, asgi, pattern):
-    """A resource whose on_get carries nb before hooks and na after hooks, stacked in the decorator
-    order given by `pattern` (a string over 'b'/'a', outermost first).  Before hook j (1-based, top
-    down) is expected to run j-th; after hook j counted from the responder outwards runs j-th."""
+def hook_style(nb, na, variant):
+    """How the nb before / na after hooks are attached, picked by `variant`: how many of each are class-level
+    decorators (the outermost ones), whether the decorated class inherits its responders from a base class,
+    whether the route uses a suffixed responder, and the decorator stackings at both levels."""
+    v = variant >> 6
+    cb = (v >> 2) % (nb + 1)
+    ca = (v >> 4) % (na + 1)
+    return {'inherit': bool(v & 1), 'suffix': bool(v & 2), 'cb': cb, 'ca': ca,
+            'mpat': hook_pattern(nb - cb, na - ca, variant >> 3), 'cpat': hook_pattern(cb, ca, variant >> 5)}
+
+
+def _resource(rec, nb, na, asgi, style):
+    """A resource whose GET responder carries nb before hooks and na after hooks.  Documented stacking:
+    before hooks run outermost decorator first, after hooks innermost first, and class-level hooks wrap
+    every responder of the decorated class - inherited or defined by it, suffixed or not - outside the
+    method-level ones.  Hook ids are expected execution positions: before 1..cb class-level (top down),
+    cb+1..nb method-level (top down); after 1..na-ca method-level (from the responder outwards), then the
+    class-level ones.  Returns (resource, suffix or None)."""
     import falcon
 
     def before(j):
@@ -332,17 +358,40 @@ def _resource(rec, nb, na, asgi, pattern):
         def on_get(self, req, resp):
             rec.perform('responder', rec.log('responder', 0, res=True), resp, marks_on_ret=True)
 
-    # decorators are applied innermost first, i.e. the pattern is walked from its end
+    cb, ca = style['cb'], style['ca']
+    # method level: decorators are applied innermost first, i.e. the pattern is walked from its end
     fn = on_get
     bj, aj = nb, 1
-    for ch in reversed(pattern):
+    for ch in reversed(style['mpat']):
         if ch == 'b':
             fn = falcon.before(before(bj))(fn)
             bj -= 1
         else:
             fn = falcon.after(after(aj))(fn)
             aj += 1
-    return type('Res', (), {'on_get': fn})()
+    name = 'on_get_sfx' if style['suffix'] else 'on_get'
+    members = {name: fn}
+    if style['suffix']:
+        async def other_async(self, req, resp):
+            rec.wrong.append('unsuffixed responder called')
+
+        def other(self, req, resp):
+            rec.wrong.append('unsuffixed responder called')
+        members['on_get'] = other_async if asgi else other
+    if style['inherit']:
+        cls = type('Res', (type('Base', (), members),), {})      # the responders are inherited, not redefined
+    else:
+        cls = type('Res', (), members)
+    # class level: same walk; these wrap outside everything applied above
+    bj, aj = cb, na - ca + 1
+    for ch in reversed(style['cpat']):
+        if ch == 'b':
+            cls = falcon.before(before(bj))(cls)
+            bj -= 1
+        else:
+            cls = falcon.after(after(aj))(cls)
+            aj += 1
+    return cls(), ('sfx' if style['suffix'] else None)
 
 
 def _handler(rec, h, beh, asgi):
@@ -458,7 +507,11 @@ class Session:
         self.routed = True
         cfg, rec, asgi, app = self.cfg, self.rec, self.asgi, self.app
         if cfg['target'] == 'routed':
-            app.add_route('/t', _resource(rec, cfg['nb'], cfg['na'], asgi, hook_pattern(cfg['nb'], cfg['na'], self.variant >> 3)))
+            res, sfx = _resource(rec, cfg['nb'], cfg['na'], asgi, hook_style(cfg['nb'], cfg['na'], self.variant))
+            if sfx:
+                app.add_route('/t', res, suffix=sfx)
+            else:
+                app.add_route('/t', res)
         elif cfg['target'] == 'sink':
             if asgi:
                 async def sink(req, resp, **kw):
@@ -468,7 +521,7 @@ class Session:
                     rec.perform('sink', rec.log('sink', 0), resp, marks_on_ret=True)
             app.add_sink(sink, '/t')
         else:
-            app.add_route('/other', _resource(rec, 0, 0, asgi, ''))
+            app.add_route('/other', _resource(rec, 0, 0, asgi, hook_style(0, 0, 0))[0])
 
     def add_handlers(self, regs):
         cl = classes()
@@ -546,8 +599,15 @@ def project(res):
     out['hdrs'] = sorted(int(k[3:]) for k, v in res.headers if re.fullmatch(r'x-e\d+', k) and v == 'v' + k[3:]
                          and hm.get('x-l' + k[3:]) == ['a%s, b%s' % (k[3:], k[3:])])
     toks = [t.strip().lower() for v in res.header_all('vary') for t in v.split(',') if t.strip()]
-    out['vary'] = sorted(set(0 if t == 'accept' else int(t[1:]) if t[0] == 'm' else -int(t[1:]) for t in toks
-                             if t == 'accept' or re.fullmatch(r'[me]\d+', t)))
+    # the field value split on commas, tokens compared case-insensitively: 0 = Accept itself
+    vary = set()
+    for t in toks:
+        m = re.fullmatch(r'(?:accept-encoding-|accept-language-|x-accept-|v)([me])(\d+)', t)
+        if t == 'accept':
+            vary.add(0)
+        elif m:
+            vary.add(int(m.group(2)) if m.group(1) == 'm' else -int(m.group(2)))
+    out['vary'] = sorted(vary)
     b = res.body
     m = re.fullmatch(rb'([mhs])(\d+)(\|.*)?', b, re.S)
     if not b:
@@ -736,7 +796,7 @@ def accept_text(acc):
     return ', '.join(parts)
 
 
-def render_case(accept, xml_on, extra, fields, *, asgi=False, site='responder', not_found=False):
+def render_case(accept, xml_on, extra, fields, *, asgi=False, site='responder', not_found=False, own_vary=None):
     """Raise one HTTPError (field values `fields`) from a responder of an app configured with
     xml_error_serialization = xml_on and the extra media handlers `extra` (list of media types), send
     the request with Accept header `accept` (text or None).  Returns (exception, result, handlers)."""
@@ -745,7 +805,7 @@ def render_case(accept, xml_on, extra, fields, *, asgi=False, site='responder', 
     box = {}
 
     def mk():
-        ex = make_exc('HTTPNotFound' if not_found else 'HTTPError', 1, fields)
+        ex = make_exc('HTTPNotFound' if not_found else 'HTTPError', 1, fields, own_vary=own_vary)
         box['ex'] = ex
         return ex
 
@@ -970,8 +1030,8 @@ def replay_behaviours(ctx, own, behaviours, both, seen_other, label, rich=False)
         cfg, regs, reqs = expected_from_behaviour(b)
         h = int(digest(b), 16)
         for asgi in ((False, True) if both else ((h & 1) == 1,)):
-            variant = (h >> 1) % 64
-            accept = ACCEPTS[(h >> 7) % len(ACCEPTS)] if rich else None
+            variant = (h >> 1) % 4096
+            accept = ACCEPTS[(h >> 13) % len(ACCEPTS)] if rich else None
             xml = bool(accept and accept.split(';')[0].endswith('xml'))
             frng = random.Random(h) if rich else None
             sess = Session(cfg, asgi=asgi, variant=variant)
@@ -1024,7 +1084,7 @@ def random_trace(rng, *, asgi, ncomp, maxhooks, regs, classes, maxfaults=5, rend
     cfg = {'shape': shapes, 'indep': rng.random() < 0.5, 'target': target,
            'nb': rng.randint(0, maxhooks) if target == 'routed' else 0,
            'na': rng.randint(0, maxhooks) if target == 'routed' else 0}
-    variant = rng.randrange(64)
+    variant = rng.randrange(4096)
     accept = rng.choice(ACCEPTS) if rich else None
     xml = bool(accept and accept.split(';')[0].endswith('xml'))
     cuts = sorted(rng.randint(0, len(regs)) for _ in range(nreqs - 1)) + [len(regs)]
